@@ -15,29 +15,23 @@ failing case (`canonical_error_is_sanity_of_copy`).
 namespace Hpl
 
 /-! ## generated-table obligations (G5) -/
-def PatternKind.all : List PatternKind := [.absence, .existence, .requirement, .response, .prevention]
-def PatternKind.pyName : PatternKind → String
-  | .absence => "ABSENCE" | .existence => "EXISTENCE" | .requirement => "REQUIREMENT" | .response => "RESPONSE" | .prevention => "PREVENTION"
-def ScopeKind.all : List ScopeKind := [.global, .afterUntil, .after, .until_]
-def ScopeKind.pyName : ScopeKind → String
-  | .global => "GLOBAL" | .afterUntil => "AFTER_UNTIL" | .after => "AFTER" | .until_ => "UNTIL"
-
 /-- the model's pattern predicates are the ones of `PatternType` (extracted from the code), member for member -/
 theorem G5_pattern_table :
-    Gen.patternTypes.map (fun r => (r.name, r.isSafety, r.isLiveness, r.hasTrigger)) =
-    PatternKind.all.map (fun k => (k.pyName, k.isSafety, k.isLiveness, k.hasTrigger)) := by decide
+    (∀ r ∈ Gen.patternTypes, (r.name, r.isSafety, r.isLiveness, r.hasTrigger) ∈ PatternKind.all.map (fun k => (k.pyName, k.isSafety, k.isLiveness, k.hasTrigger))) ∧
+    (∀ k ∈ PatternKind.all, k.pyName ∈ Gen.patternTypes.map (·.name)) ∧ (Gen.patternTypes.map (·.name)).Nodup := by decide
 
 /-- every pattern type is exactly one of safety / liveness -/
 theorem G5_safety_xor_liveness : ∀ r ∈ Gen.patternTypes, r.isSafety = !r.isLiveness := by decide
 
 /-- the kind tests used by the split: safety = absence/requirement/prevention; response is the only split liveness pattern -/
-theorem G5_kind_tests : Gen.patternTypes.map (fun r => (r.isAbsence, r.isExistence, r.isRequirement, r.isResponse, r.isPrevention)) =
-    [(true, false, false, false, false), (false, true, false, false, false), (false, false, true, false, false),
-     (false, false, false, true, false), (false, false, false, false, true)] := by decide
+theorem G5_kind_tests : ∀ r ∈ Gen.patternTypes,
+    (r.isAbsence, r.isExistence, r.isRequirement, r.isResponse, r.isPrevention) =
+    (r.name == "ABSENCE", r.name == "EXISTENCE", r.name == "REQUIREMENT", r.name == "RESPONSE", r.name == "PREVENTION") := by decide
 
 theorem G5_scope_table :
-    Gen.scopeTypes.map (fun r => (r.name, r.isAfter, r.isUntil, r.hasActivator, r.hasTerminator)) =
-    ScopeKind.all.map (fun k => (k.pyName, k.hasActivator, k.hasTerminator, k.hasActivator, k.hasTerminator)) := by decide
+    (∀ r ∈ Gen.scopeTypes, (r.name, r.isAfter, r.isUntil, r.hasActivator, r.hasTerminator) ∈
+      ScopeKind.all.map (fun k => (k.pyName, k.hasActivator, k.hasTerminator, k.hasActivator, k.hasTerminator))) ∧
+    (∀ k ∈ ScopeKind.all, k.pyName ∈ Gen.scopeTypes.map (·.name)) ∧ (Gen.scopeTypes.map (·.name)).Nodup := by decide
 
 /-! ## facts about alternatives -/
 theorem simpleEvents_simple : ∀ (e a : Event), a ∈ e.simpleEvents → a.isDisj = false
